@@ -520,3 +520,11 @@ def g9(ctx):
 
 
 RULES.append(g9)
+
+
+@rule("MC", doc="must-call census: no function of this property's files has gained an early exit in front of work it always did (every crate-local call that lay on all paths to a normal return in the reviewed tree still does)")
+def mc(ctx):
+    C.must_call_census(ctx, ctx.lib(), ['src/egraph/check.rs', 'src/egraph/rebuild.rs', 'src/egraph/union.rs', 'src/egraph/add.rs', 'src/egraph/find.rs', 'src/egraph/mod.rs', 'src/group/mod.rs', 'src/extract/mod.rs'])
+
+
+RULES.append(mc)
